@@ -560,16 +560,16 @@ def all_cases(tier):
         ("join2d_r", mk_join2d(False, False), dict(tiers=Q)),
         ("meet2d_r", mk_join2d(False, True), dict(tiers=Q)),
         ("join2d_c", mk_join2d(True, False), dict(tiers=Q)),
-        ("meet2d_c", mk_join2d(True, True), dict(tiers=T)),
+        ("meet2d_c", mk_join2d(True, True), dict(tiers=Q)),
         ("roundtrip2d", case_roundtrip2d, dict(tiers=Q)),
         ("roundtrip2d_dual", case_roundtrip2d_dual, dict(tiers=Q)),
         ("join3d_pq_r", mk_join3d_pq(False), dict(tiers=Q)),
-        ("join3d_pq_c", mk_join3d_pq(True), dict(tiers=T)),
+        ("join3d_pq_c", mk_join3d_pq(True), dict(tiers=Q)),
         ("join3d_pqr_r", mk_join3d_pqr(False, False), dict(tiers=Q)),
         ("meet3d_efg_r", mk_join3d_pqr(False, True), dict(tiers=Q)),
-        ("join3d_pqr_c", mk_join3d_pqr(True, False), dict(tiers=T)),
+        ("join3d_pqr_c", mk_join3d_pqr(True, False), dict(tiers=Q)),
         ("meet3d_ef_r", mk_meet3d_ef(False), dict(tiers=Q)),
-        ("meet3d_ef_c", mk_meet3d_ef(True), dict(tiers=T)),
+        ("meet3d_ef_c", mk_meet3d_ef(True), dict(tiers=Q)),
         ("join3d_pl", mk_join_point_line("pl"), dict(tiers=Q)),
         ("join3d_lp", mk_join_point_line("lp"), dict(tiers=Q)),
         ("join3d_pl_cov", mk_join_point_line("pl", True), dict(tiers=T)),
